@@ -207,6 +207,81 @@ def run_one(case):
                                 mech="psd", obs={"q": [q.real, q.imag]})
         obs["rel"] = worst
         obs["N_type"] = type(N).__name__
+        # history: the operator is handed to the library's own consumers of A.N (least-squares
+        # apps with a regulariser, the maximum-eigenvalue estimate) between two uses: what
+        # they build from A.N must not leak back into the operator's normal operator
+        if sum(case["rs"]) % 4 == 2 and int(np.prod(A.ishape)) <= 4096:
+            import sigpy as sp
+            ydat = crandn(rng, tuple(A.oshape), np.complex64 if single else np.complex128)
+            ncons = 0
+            for kw_ in (dict(lamda=0.37, max_iter=2),
+                        dict(lamda=0.21, solver="ADMM", rho=0.5, max_iter=2, max_cg_iter=2),
+                        dict(lamda=0.11, solver="GradientMethod", max_iter=2,
+                             max_power_iter=2)):
+                try:
+                    sp.app.LinearLeastSquares(A, ydat, show_pbar=False, **kw_).run()
+                    ncons += 1
+                except Exception:
+                    pass                 # whether the app can use this operator is C14's matter
+            try:
+                sp.app.MaxEig(A.N, dtype=ydat.dtype, max_iter=2, show_pbar=False).run()
+                ncons += 1
+            except Exception:
+                pass
+            x = crandn(rng, tuple(A.ishape), np.complex64 if single else np.complex128)
+            STATE.peak = 0.0
+            Ax_ = A(x)
+            ref = np.asarray(A.H(Ax_))
+            got = np.asarray(A.N(x))
+            checks += 1
+            if toep:
+                sc = max(nrm(ref), opn * nrm(Ax_))
+            else:
+                sc = nrm(ref) + 1e-3 * max(nrm(x), STATE.peak)
+                if "parts" in desc or "A" in desc:
+                    sc += 1e13 * Spec(lops.build, lops.scalar_value).noise(
+                        {"op": "N", "A": desc}, x)[1]
+            e = nrm(got - ref) / sc if sc > 0 else nrm(got - ref)
+            obs["rel_after_consumers"] = e
+            obs["consumers_run"] = ncons
+            sig += "|consumers"
+            if got.shape != ref.shape or not e <= tol:
+                return violated(sig, "after the operator was used by %d solver / eigenvalue "
+                                "apps, A.N x differs from A.H(A x): rel %.3g (tol %.3g)" % (
+                                    ncons, e, tol), wit, mech="after-consumers",
+                                obs={"rel": e})
+        # history: the caller refreshes, in place, the arrays the operator was built from (a
+        # new matrix / filter / multiplier in the same buffers, as in alternating updates).
+        # A and A.H follow the new content, so the A.N taken earlier must as well (the NUFFT's
+        # coordinates and its pre-computed Toeplitz kernel are left alone)
+        if sum(case["rs"]) % 4 == 1 and not toep and not single:
+            from vf.monitors import linop_mon
+            caps = [(n_, v_) for n_, v_ in linop_mon.captured_tree(A).values()
+                    if v_.flags.writeable and v_.dtype.kind in "fc" and v_.size
+                    and not n_.endswith(("coord", ".psf"))]
+            if caps:
+                for n_, v_ in caps:
+                    v_ *= v_.dtype.type(0.8 + 0.6j) if v_.dtype.kind == "c" \
+                        else v_.dtype.type(-1.5)
+                    v_.reshape(-1)[::2] *= v_.dtype.type(0.5)
+                x = crandn(rng, tuple(A.ishape), np.complex128)
+                STATE.peak = 0.0
+                ref = np.asarray(AH(A(x)))
+                got = np.asarray(N(x))
+                checks += 1
+                sc = nrm(ref) + 1e-3 * max(nrm(x), STATE.peak)
+                if "parts" in desc or "A" in desc:
+                    sc += 1e13 * Spec(lops.build, lops.scalar_value).noise(
+                        {"op": "N", "A": desc}, x)[1]
+                e = nrm(got - ref) / sc if sc > 0 else nrm(got - ref)
+                obs["rel_after_param_update"] = e
+                sig += "|param-update"
+                if got.shape != ref.shape or not e <= tol:
+                    return violated(sig, "after the arrays the operator was built from (%s) were "
+                                    "refreshed in place, the A.N taken earlier differs from "
+                                    "A.H(A x): rel %.3g" % (
+                                        ", ".join(n_ for n_, _ in caps)[:120], e), wit,
+                                    mech="param-update", obs={"rel": e})
     except Exception as e:
         inn = e
         while inn.__cause__ is not None:
